@@ -1,9 +1,10 @@
 #!/bin/bash
-# try_seed.sh <patch.diff> <prop> [check args...] : apply a seeded change to /repo, run ./check <prop>, undo
-PATCH=$1; shift
-cd /repo || exit 9
-if [ -n "$(git status --porcelain --untracked-files=no)" ]; then echo "repo dirty"; exit 9; fi
-git apply "$PATCH" || { echo "APPLY FAILED"; exit 9; }
+# try_seed.sh <patch.diff> <prop> [check args...] : apply a stored change to a scratch worktree of /repo's HEAD (outside /repo and
+# /verif), run ./check <prop> on that tree, remove the worktree.  /repo itself is not touched, so several trials can run at once.
+PATCH=$(realpath "$1"); shift
+W=$(mktemp -d /tmp/trial.XXXXXX)
+git -C /repo worktree add --detach "$W/wt" HEAD >/dev/null 2>&1 || { echo "WORKTREE FAILED"; rm -rf "$W"; exit 9; }
+git -C "$W/wt" apply "$PATCH" || { echo "APPLY FAILED"; git -C /repo worktree remove --force "$W/wt"; rm -rf "$W"; exit 9; }
 cd /verif
-./check "$@" --no-evidence 2>&1 | grep -E "^VIOLATION|^property=|^CHECKER|^UNDECIDED|^KNOWN" | cut -c1-250 | head -${SEED_LINES:-8}
-git -C /repo checkout -- .
+OASVERIF_REPO="$W/wt" ./check "$@" --no-evidence 2>&1 | grep -E "^VIOLATION|^property=|^CHECKER|^UNDECIDED|^KNOWN" | cut -c1-250 | head -${SEED_LINES:-8}
+git -C /repo worktree remove --force "$W/wt"; rm -rf "$W"
